@@ -1,4 +1,5 @@
 SPECIFICATION Spec
 CONSTANT Side = "listener"
+CONSTANT Only = "all"
 INVARIANT Emit
 CHECK_DEADLOCK FALSE
